@@ -177,11 +177,14 @@ theorem render_parse_enum_value_definition (τ : Trivia) (hτ : ∀ q, Ws (τ q)
   obtain ⟨e, hrun, hle⟩ := run_of_runsK hr (fuel := fuel) (by omega)
   exact ⟨e, pr, hrun, hle, hbld bfuel hb⟩
 
-/-- `render_parse_type_system_definition`: wherever the rendering of a well-formed item of a type-system document occurs
-    in an input (see `WFTsItem` for the items covered), followed by a token that begins with none of `@ ( { & | =` (and
-    not with a name character unless the rendering ends with a non-empty gap), the `TypeSystemDefinitionOrExtension` rule
-    succeeds with one pair on which `build_type_system_definition_or_extension` returns the item with the true position
-    of every token. -/
+/-- `render_parse_type_system_definition`: wherever the rendering of a well-formed item of a type-system document —
+    SchemaDefinition, the six TypeDefinitions, DirectiveDefinition, SchemaExtension, the six TypeExtensions, each with
+    description / directives / all its optional parts (`WFTsItem`: valid names, well-formed components, and the emptiness
+    conditions without which the GRAMMAR has no alternative, e.g. an object type without fields needs a directive) — occurs
+    in an input, followed by a token that begins with none of `@ ( { & | =` (and not with a name character unless the
+    rendering ends with a non-empty gap), the `TypeSystemDefinitionOrExtension` rule succeeds with one pair — every
+    EARLIER alternative of the grammar's ordered choices is shown to fail — on which
+    `build_type_system_definition_or_extension` returns the item with the true position of every token. -/
 theorem render_parse_type_system_definition (τ : Trivia) (hτ : ∀ q, Ws (τ q)) (it : TsItem) (hwf : WFTsItem it)
     (sep : Bool) (inp : List Char) (off : Nat) (X : List Char) (h : inp.drop off = rTsItem τ sep off it ++ X)
     (hX : HeadNot (fun d => trivia d ∨ tdBad d) X) (hglue : sep = false → HeadNot nameCont X) (fuel bfuel : Nat)
@@ -193,7 +196,8 @@ theorem render_parse_type_system_definition (τ : Trivia) (hτ : ∀ q, Ws (τ q
   obtain ⟨e, hrun, hle⟩ := run_of_runsK hr (fuel := fuel) (by omega)
   exact ⟨e, pr, hrun, hle, hbld bfuel hb⟩
 
-/-- **`parse_render_type_system_document`**: for EVERY non-empty list `doc` of well-formed type-system items (`WFTsItem`)
+/-- **`parse_render_type_system_document`**: for EVERY non-empty list `doc` of well-formed type-system items (`WFTsItem`:
+    schema definition, type definitions, directive definitions, schema extensions, type extensions)
     and every trivia assignment `τ` (arbitrary whitespace, commas, BOM, comments at the start of the text and after every
     token), the model of `parse_type_system_document` — the generated grammar's `TypeSystemExtensionDocument` rule with the
     model's own depth bounds, `validate_unicode_escapes`, `build_type_system_document` — applied to the rendering returns
@@ -205,14 +209,14 @@ theorem parse_render_type_system_document (τ : Trivia) (hτ : ∀ q, Ws (τ q))
   parseTs_rTsDoc τ hτ doc hne hwf
 
 /-- … in the terms of the property: the document returned differs from `doc` only in positions (`GqlTokens.eraseTsDoc`),
-    provided every type definition of `doc` carries only the components of its kind (`NormalItem`: a scalar has no fields,
-    … — the rendering does not show the others). -/
+    provided every item of `doc` carries only what its rendering shows (`NormalItem`: a type definition or extension only
+    the components of its kind — a scalar has no fields, … —, an extension no description). -/
 theorem parse_render_type_system_document_erase (τ : Trivia) (hτ : ∀ q, Ws (τ q)) (doc : List TsItem) (hne : doc ≠ [])
     (hwf : ∀ d ∈ doc, WFTsItem d) (hn : ∀ d ∈ doc, NormalItem d) :
     ∃ A, parseTs (rTsDoc τ doc) = .ok A ∧ GqlTokens.eraseTsDoc A = GqlTokens.eraseTsDoc doc :=
   ⟨_, parseTs_rTsDoc τ hτ doc hne hwf, tsErase_wpTsDoc τ _ doc hn⟩
 
-/-- the hypotheses are satisfiable: one definition of each kind, in canonical trivia -/
+/-- the hypotheses are satisfiable: one type definition of each kind, in canonical trivia -/
 example : rTsDoc (fun _ => [])
     [.typeDef { kind := .scalar, name := "S", dirs := [{ name := "d" }] },
      .typeDef { kind := .object, desc := some "doc", name := "T", implements := [("I", {}), ("J", {})],
@@ -224,5 +228,26 @@ example : rTsDoc (fun _ => [])
      .typeDef { kind := .input, name := "In", inputs := [{ name := "y", ty := .named "E" {} }] }] =
     "scalar S@d \"doc\"type T implements I&J{f(x:Int=1):S!} interface I{g:[T]} union U=T|V enum E{A B@d} input In{y:E}".toList := by
   decide
+
+/-- … a schema definition and a directive definition -/
+example : rTsDoc (fun _ => [])
+    [.schemaDef { roots := [(.query, "Q", {}), (.mutation, "M", {})] },
+     .directiveDef { desc := some "d", name := "d", args := [{ name := "x", ty := .named "Int" {} }], repeatable := true,
+                     locations := ["FIELD", "ENUM_VALUE"] }] =
+    "schema{query:Q mutation:M} \"d\"directive@d(x:Int)repeatable on FIELD|ENUM_VALUE".toList := by
+  decide
+
+/-- … a schema extension and three type extensions -/
+example : rTsDoc (fun _ => [])
+    [.schemaExt { dirs := [{ name := "d" }] },
+     .typeExt { kind := .object, name := "T", implements := [("K", {})] },
+     .typeExt { kind := .union, name := "U", dirs := [{ name := "d" }] },
+     .typeExt { kind := .enum, name := "E", values := [{ name := "C" }] }] =
+    "extend schema@d extend type T implements K extend union U@d extend enum E{C}".toList := by
+  decide
+
+/-- … and these items are well-formed (`WFTsItem` is decidable on concrete items up to the `validName` conjuncts; shown
+    here for the directive locations: each of the 19 words of the grammar is taken by the `DirectiveLocation` rule) -/
+example : ∀ w ∈ locWords, (locKind w).isSome = true := fun w hw => (locWords_ok w hw).2
 
 end NitroVerif.C07
